@@ -22,6 +22,8 @@ package openapi3
 //@ func (*T).addSchemaToSpec
 //@   requires doc != nil
 //@   modifies *
+//@   modifies inheritedExternal
+//@   records inheritedExternal := parentIsExternal
 //@   ensures [internal-left-alone] s == nil || !extRef(old(s.Ref), parentIsExternal) ==> !result && (s != nil ==> s.Ref == old(s.Ref))
 //@   ensures [becomes-internal] s != nil && extRef(old(s.Ref), parentIsExternal) && !(old(doc.Components) != nil && old(has(doc.Components.Schemas, refName(doc, ptr(s)))) && old(doc.Components.Schemas[refName(doc, ptr(s))]) == s) ==> result && s.Ref == concat("#/components/schemas/", refName(doc, ptr(s))) && doc.Components != nil && has(doc.Components.Schemas, refName(doc, ptr(s)))
 //@   ensures [own-component-dereferenced] s != nil && extRef(old(s.Ref), parentIsExternal) && (old(doc.Components) != nil && old(has(doc.Components.Schemas, refName(doc, ptr(s)))) && old(doc.Components.Schemas[refName(doc, ptr(s))]) == s) ==> result && s.Ref == ""
@@ -33,6 +35,8 @@ package openapi3
 //@ func (*T).addParameterToSpec
 //@   requires doc != nil
 //@   modifies *
+//@   modifies inheritedExternal
+//@   records inheritedExternal := parentIsExternal
 //@   ensures [internal-left-alone] p == nil || !extRef(old(p.Ref), parentIsExternal) ==> !result && (p != nil ==> p.Ref == old(p.Ref))
 //@   ensures [becomes-internal] p != nil && extRef(old(p.Ref), parentIsExternal) && !(old(doc.Components) != nil && old(has(doc.Components.Parameters, refName(doc, ptr(p)))) && old(doc.Components.Parameters[refName(doc, ptr(p))]) == p) ==> result && p.Ref == concat("#/components/parameters/", refName(doc, ptr(p))) && doc.Components != nil && has(doc.Components.Parameters, refName(doc, ptr(p)))
 //@   ensures [own-component-dereferenced] p != nil && extRef(old(p.Ref), parentIsExternal) && (old(doc.Components) != nil && old(has(doc.Components.Parameters, refName(doc, ptr(p)))) && old(doc.Components.Parameters[refName(doc, ptr(p))]) == p) ==> result && p.Ref == ""
@@ -44,6 +48,8 @@ package openapi3
 //@ func (*T).addHeaderToSpec
 //@   requires doc != nil
 //@   modifies *
+//@   modifies inheritedExternal
+//@   records inheritedExternal := parentIsExternal
 //@   ensures [internal-left-alone] h == nil || !extRef(old(h.Ref), parentIsExternal) ==> !result && (h != nil ==> h.Ref == old(h.Ref))
 //@   ensures [becomes-internal] h != nil && extRef(old(h.Ref), parentIsExternal) && !(old(doc.Components) != nil && old(has(doc.Components.Headers, refName(doc, ptr(h)))) && old(doc.Components.Headers[refName(doc, ptr(h))]) == h) ==> result && h.Ref == concat("#/components/headers/", refName(doc, ptr(h))) && doc.Components != nil && has(doc.Components.Headers, refName(doc, ptr(h)))
 //@   ensures [own-component-dereferenced] h != nil && extRef(old(h.Ref), parentIsExternal) && (old(doc.Components) != nil && old(has(doc.Components.Headers, refName(doc, ptr(h)))) && old(doc.Components.Headers[refName(doc, ptr(h))]) == h) ==> result && h.Ref == ""
@@ -55,6 +61,8 @@ package openapi3
 //@ func (*T).addRequestBodyToSpec
 //@   requires doc != nil
 //@   modifies *
+//@   modifies inheritedExternal
+//@   records inheritedExternal := parentIsExternal
 //@   ensures [internal-left-alone] r == nil || !extRef(old(r.Ref), parentIsExternal) ==> !result && (r != nil ==> r.Ref == old(r.Ref))
 //@   ensures [becomes-internal] r != nil && extRef(old(r.Ref), parentIsExternal) && !(old(doc.Components) != nil && old(has(doc.Components.RequestBodies, refName(doc, ptr(r)))) && old(doc.Components.RequestBodies[refName(doc, ptr(r))]) == r) ==> result && r.Ref == concat("#/components/requestBodies/", refName(doc, ptr(r))) && doc.Components != nil && has(doc.Components.RequestBodies, refName(doc, ptr(r)))
 //@   ensures [own-component-dereferenced] r != nil && extRef(old(r.Ref), parentIsExternal) && (old(doc.Components) != nil && old(has(doc.Components.RequestBodies, refName(doc, ptr(r)))) && old(doc.Components.RequestBodies[refName(doc, ptr(r))]) == r) ==> result && r.Ref == ""
@@ -66,6 +74,8 @@ package openapi3
 //@ func (*T).addResponseToSpec
 //@   requires doc != nil
 //@   modifies *
+//@   modifies inheritedExternal
+//@   records inheritedExternal := parentIsExternal
 //@   ensures [internal-left-alone] r == nil || !extRef(old(r.Ref), parentIsExternal) ==> !result && (r != nil ==> r.Ref == old(r.Ref))
 //@   ensures [becomes-internal] r != nil && extRef(old(r.Ref), parentIsExternal) && !(old(doc.Components) != nil && old(has(doc.Components.Responses, refName(doc, ptr(r)))) && old(doc.Components.Responses[refName(doc, ptr(r))]) == r) ==> result && r.Ref == concat("#/components/responses/", refName(doc, ptr(r))) && doc.Components != nil && has(doc.Components.Responses, refName(doc, ptr(r)))
 //@   ensures [own-component-dereferenced] r != nil && extRef(old(r.Ref), parentIsExternal) && (old(doc.Components) != nil && old(has(doc.Components.Responses, refName(doc, ptr(r)))) && old(doc.Components.Responses[refName(doc, ptr(r))]) == r) ==> result && r.Ref == ""
@@ -77,6 +87,8 @@ package openapi3
 //@ func (*T).addSecuritySchemeToSpec
 //@   requires doc != nil
 //@   modifies *
+//@   modifies inheritedExternal
+//@   records inheritedExternal := parentIsExternal
 //@   ensures [internal-left-alone] ss == nil || !extRef(old(ss.Ref), parentIsExternal) ==> (ss != nil ==> ss.Ref == old(ss.Ref))
 //@   ensures [becomes-internal] ss != nil && extRef(old(ss.Ref), parentIsExternal) && !(old(doc.Components) != nil && old(has(doc.Components.SecuritySchemes, refName(doc, ptr(ss)))) && old(doc.Components.SecuritySchemes[refName(doc, ptr(ss))]) == ss) ==> ss.Ref == concat("#/components/securitySchemes/", refName(doc, ptr(ss))) && doc.Components != nil && has(doc.Components.SecuritySchemes, refName(doc, ptr(ss)))
 //@   ensures [own-component-dereferenced] ss != nil && extRef(old(ss.Ref), parentIsExternal) && (old(doc.Components) != nil && old(has(doc.Components.SecuritySchemes, refName(doc, ptr(ss)))) && old(doc.Components.SecuritySchemes[refName(doc, ptr(ss))]) == ss) ==> ss.Ref == ""
@@ -88,6 +100,8 @@ package openapi3
 //@ func (*T).addExampleToSpec
 //@   requires doc != nil
 //@   modifies *
+//@   modifies inheritedExternal
+//@   records inheritedExternal := parentIsExternal
 //@   ensures [internal-left-alone] e == nil || !extRef(old(e.Ref), parentIsExternal) ==> (e != nil ==> e.Ref == old(e.Ref))
 //@   ensures [becomes-internal] e != nil && extRef(old(e.Ref), parentIsExternal) && !(old(doc.Components) != nil && old(has(doc.Components.Examples, refName(doc, ptr(e)))) && old(doc.Components.Examples[refName(doc, ptr(e))]) == e) ==> e.Ref == concat("#/components/examples/", refName(doc, ptr(e))) && doc.Components != nil && has(doc.Components.Examples, refName(doc, ptr(e)))
 //@   ensures [own-component-dereferenced] e != nil && extRef(old(e.Ref), parentIsExternal) && (old(doc.Components) != nil && old(has(doc.Components.Examples, refName(doc, ptr(e)))) && old(doc.Components.Examples[refName(doc, ptr(e))]) == e) ==> e.Ref == ""
@@ -99,6 +113,8 @@ package openapi3
 //@ func (*T).addLinkToSpec
 //@   requires doc != nil
 //@   modifies *
+//@   modifies inheritedExternal
+//@   records inheritedExternal := parentIsExternal
 //@   ensures [internal-left-alone] l == nil || !extRef(old(l.Ref), parentIsExternal) ==> (l != nil ==> l.Ref == old(l.Ref))
 //@   ensures [becomes-internal] l != nil && extRef(old(l.Ref), parentIsExternal) && !(old(doc.Components) != nil && old(has(doc.Components.Links, refName(doc, ptr(l)))) && old(doc.Components.Links[refName(doc, ptr(l))]) == l) ==> l.Ref == concat("#/components/links/", refName(doc, ptr(l))) && doc.Components != nil && has(doc.Components.Links, refName(doc, ptr(l)))
 //@   ensures [own-component-dereferenced] l != nil && extRef(old(l.Ref), parentIsExternal) && (old(doc.Components) != nil && old(has(doc.Components.Links, refName(doc, ptr(l)))) && old(doc.Components.Links[refName(doc, ptr(l))]) == l) ==> l.Ref == ""
@@ -110,6 +126,8 @@ package openapi3
 //@ func (*T).addCallbackToSpec
 //@   requires doc != nil
 //@   modifies *
+//@   modifies inheritedExternal
+//@   records inheritedExternal := parentIsExternal
 //@   ensures [internal-left-alone] c == nil || !extRef(old(c.Ref), parentIsExternal) ==> !result && (c != nil ==> c.Ref == old(c.Ref))
 //@   ensures [becomes-internal] c != nil && extRef(old(c.Ref), parentIsExternal) && !false ==> result && c.Ref == concat("#/components/callbacks/", refName(doc, ptr(c))) && doc.Components != nil && has(doc.Components.Callbacks, refName(doc, ptr(c)))
 //@   ensures [own-component-dereferenced] c != nil && extRef(old(c.Ref), parentIsExternal) && false ==> result && c.Ref == ""
@@ -127,3 +145,61 @@ package openapi3
 // Descent completeness: internalisation reads every field of the document types that can hold a
 // reference wrapper (a field it never reads is a position whose references stay external).
 //@ refwalk @C16 (*T).InternalizeRefs : SchemaRef, ParameterRef, HeaderRef, RequestBodyRef, ResponseRef, SecuritySchemeRef, ExampleRef, LinkRef, CallbackRef, MediaType, Encoding, Operation, PathItem, Responses, Paths, Components
+
+// ---- the recursive descent (C16): everything below something external is treated as external.
+// Ghost inheritedExternal records the parent-is-external flag of the latest add*ToSpec call; the
+// descent into the value that call was made for must not be run with a weaker flag (it is run with
+// "the reference was external, or the parent was"); a descent resets the ghost when it returns. So a
+// document-local reference inside an inline child of an external schema is still internalised.
+//@ ghost var inheritedExternal bool
+// (the visited set is initialised by resetVisited at the start of InternalizeRefs; frame only)
+//@ func (*T).isVisitedSchema
+//@   modifies doc.visited.schema
+//@ func (*T).derefSchema
+//@   requires doc != nil
+//@   requires @C16 [flag-inherited] inheritedExternal ==> parentIsExternal
+//@   loop * invariant inheritedExternal ==> parentIsExternal
+//@   modifies *
+//@   modifies inheritedExternal
+//@   records inheritedExternal := false
+//@   option safety-tags C20
+//@   tag C16
+// a path item below something external is external, whatever its own reference says
+//@ func (*T).derefPaths
+//@   requires doc != nil
+//@   modifies *
+//@   modifies inheritedExternal
+//@   loop 1 invariant parentIsExternal ==> pathIsExternal
+//@   loop 2 invariant parentIsExternal ==> pathIsExternal
+//@   loop 3 invariant parentIsExternal ==> pathIsExternal
+//@   loop 4 invariant parentIsExternal ==> pathIsExternal
+//@   option safety-tags C20
+//@   tag C16
+// the other descent functions: frames only (they may run derefSchema, which resets the ghost)
+//@ func (*T).derefHeaders
+//@   modifies *
+//@   modifies inheritedExternal
+//@ func (*T).derefExamples
+//@   modifies *
+//@   modifies inheritedExternal
+//@ func (*T).derefContent
+//@   modifies *
+//@   modifies inheritedExternal
+//@ func (*T).derefLinks
+//@   modifies *
+//@   modifies inheritedExternal
+//@ func (*T).derefResponse
+//@   modifies *
+//@   modifies inheritedExternal
+//@ func (*T).derefResponses
+//@   modifies *
+//@   modifies inheritedExternal
+//@ func (*T).derefResponseBodies
+//@   modifies *
+//@   modifies inheritedExternal
+//@ func (*T).derefParameter
+//@   modifies *
+//@   modifies inheritedExternal
+//@ func (*T).derefRequestBody
+//@   modifies *
+//@   modifies inheritedExternal
